@@ -183,9 +183,9 @@ def prove(ctx, prop_mods, extra_targets=("mlsmodel",), thorough_leanchecker=True
             for t in thms:
                 f.write(f"#print axioms {t}\n")
         rc, aout, _ = sh(["lake", "env", "lean", af], cwd=LEAN, timeout=900)
-        for m in re.finditer(r"'([^']+)' depends on axioms: \[([^\]]*)\]", aout.replace("\n", " ")):
+        for m in re.finditer(r"'(\S+)' depends on axioms: \[([^\]]*)\]", aout.replace("\n", " ")):
             axioms[m.group(1)] = [a.strip() for a in m.group(2).split(",") if a.strip()]
-        for m in re.finditer(r"'([^']+)' does not depend on any axioms", aout):
+        for m in re.finditer(r"'(\S+)' does not depend on any axioms", aout):
             axioms[m.group(1)] = []
         for t in thms:
             if t not in axioms:
